@@ -85,9 +85,18 @@ def run(ctx):
         body = nt.random_track(r, r.choice([300, 700]), res=res_big, phrases=5, events=3, sustain_p=0.7)
         cases.append({"id": f"C03-big{k}", "res": res_big, "body": body, "tempo": [[0, 120000], [5000, 90000], [20000, 200000]]})
     _notes._judge(ctx, cases, "C03", "seeded long sections", max_skip_ratio=0.0)
+    # ticks around the constants a platform knows (2^31, 2^32, 2^53, 2^63, 2^64)
+    _notes._judge(ctx, _notes.platform_constant_tracks("C03", r), "C03", "ticks around platform constants", max_skip_ratio=0.0)
     # several instrument sections in one chart, each judged as if it were alone
     cases = _notes.seeded_multi(ctx, "C03", ctx.pick(150, 2500), sustain_p=0.7)
     _notes._judge_multi(ctx, cases, "C03", "seeded charts with several sections", max_skip_ratio=0.02)
+    # lengths congruent modulo the constants an implementation may hash or truncate by (2^61 - 1, 2^32, 2^63, 2^64)
+    from chartgen import huge_length_records
+    hrecs = huge_length_records("C03")
+    ctx.evaluations += len(hrecs)
+    hby = {x["id"]: x for x in hrecs}
+    for rid, p_, clause in ctx.validate(hrecs, max_skip_ratio=0.0):
+        ctx.violation(clause, {"kind": "huge-lengths", "layout": hby[rid]["layout"], "first_difference": hby[rid]["first_difference"]}, key=clause)
     ctx.assumptions += [
         "domain: well-formed section; an open note's own line precedes its flag lines (the library documents other orders as undefined)",
         "exactness of the end time against the tempo map is decided by C01; here end time must equal the un-hinted query at the end tick",
